@@ -238,7 +238,11 @@ func (o *otherTypes) id(t types.Type) int {
 }
 
 func lookupBox(t types.Type) (boxInfo, bool) {
-	b, ok := boxTable[typeKey(t)]
+	k := typeKey(t)
+	if k == "rune" {
+		k = "int32" // universe alias
+	}
+	b, ok := boxTable[k]
 	return b, ok
 }
 
